@@ -43,7 +43,7 @@ LEVEL_TEXT = ("Lean 4 theorems over a transliteration of dask/blockwise.py's coo
               "is a Blockwise layer, is not a requested output, and all its dependents lie inside the group), "
               "`all_layers_grouped` / `optimize_blockwise_keeps_outputs` (on a topologically numbered graph every layer "
               "lands in some group and every requested layer name is the root of one, i.e. survives), for the runs on "
-              "which the fuelled model terminates; the groups of EVERY real pass (wrapped `rewrite_blockwise`) and the "
+              "which the fuelled model terminates (`optimizeGroups_fuel_mono`: more fuel never changes a result); the groups of EVERY real pass (wrapped `rewrite_blockwise`) and the "
               "layers `fuse_roots` merges are diffed against the model on generated layer DAGs. "
               "Fusion VALUES (`rewrite_blockwise`/`optimize_blockwise`) are validated, not proved: the fused index table of "
               "every rewrite_blockwise call is diffed against the model, fused and unfused graphs are evaluated on random "
@@ -55,7 +55,8 @@ LEVEL_NOTE = ("Trusted: Lean kernel + standard axioms; the hand-written model, t
               "the synchronous scheduler as oracles. Python set iteration order is modelled as an arbitrary enumeration. "
               "The grouping loop is modelled with one fixed traversal order (Python: set order) and fuel; that the result "
               "does not depend on the order, and that the fuel suffices, are validated by the diff, not proved. "
-              "`fuse_roots`: the merge condition is modelled and diffed, no theorem. Not modelled: the `dependencies` dict "
+              "`fuse_roots`: the merge condition is modelled (with the mutation of the copied dicts) and diffed; theorem "
+              "`fuse_roots_merges_sound` (merged roots are used by their consumer only). Not modelled: the `dependencies` dict "
               "`_optimize_blockwise` returns, BlockwiseDep.produces_keys.")
 TECHNIQUE = "Lean 4 proof (induction over index strings / layer lists; extracted rule table) + differential correspondence + NumPy oracle"
 ASSUMPTIONS = [
